@@ -6,6 +6,15 @@ props = [json.loads(l) for l in open(os.path.join(V, "properties.jsonl"))]
 
 MACHINE_NOTE = 'The reference machine (spec/Machine.tla + Values.tla) is a transcription of the intended semantics checked for totality (NotStuck) by TLC; where no language document exists the pinned behaviour is the definition. Numbers outside the modelled domain are not compared.'
 CHECKS = {
+ "C10": dict(
+    level="model_checking",
+    text="One specification (Machine.tla) is the arbiter for every build configuration: a stratified sample of all scenario families (closures, "
+         "exceptions, fibers, classes, iteration, errors, modules, snippet sequences, HashMap) and of TLC-generated programs is executed by the machine "
+         "under TLC and replayed on each build of the configuration set - quick: dev and release; thorough: additionally release with each of safe_stack, "
+         "safe_active_fiber, safe_vm_opcodes, safe_class_lookup, debug_stress_gc, release with all of them, dev with all of them. Agreement with the "
+         "specification on every build implies pairwise agreement; the repository's 546 scripts are also compared pairwise across the builds.",
+    note=MACHINE_NOTE + " The other profile checks (C05-C09, C12-C18) already replay on dev and release; this check adds the feature matrix.",
+    technique="TLA+ reference machine (TLC) + replay of the same expectations on every build configuration", design="4 C10"),
  "C13": dict(
     level="model_checking",
     text="Strings.tla is a byte-level reference model (UTF-8 boundaries, characters, code points, validity) of string / vector / tuple indexing and "
